@@ -325,3 +325,7 @@ def check(ctx):
         okw = len(wt) == 1 and isinstance(enclosing(wt[0][0], (ast.ExceptHandler,), stop=f.node), ast.ExceptHandler) and \
             "BlockingIOError" in handler_names(enclosing(wt[0][0], (ast.ExceptHandler,), stop=f.node))
         ctx.ob("R18-c", f, "a would-block waits for the socket and retries (no busy loop, no loss)", okw, detail="" if okw else "the wait for readiness is not the BlockingIOError handler", by=("except BlockingIOError: await wait",))
+
+    # ---- R18-d `async for` over the stream is receive() until EndOfStream -------------------------------------------------------------
+    from .common import iteration_protocol
+    iteration_protocol(ctx, "R18-d", "ByteReceiveStream")
